@@ -88,7 +88,7 @@ def run(ctx):
     ctx.guard(rule_c, ctx, ix, reg, classes)
     ctx.guard(rule_d, ctx, ix, reg, classes)
     ctx.guard(rule_e, ctx, ix, reg, classes)
-    ctx.guard(rule_f, ctx, ix)
+    ctx.guard(rule_f, ctx, ix, reg)
     ctx.guard(rule_g, ctx, ix)
     ctx.guard(rule_h, ctx, ix)
     ctx.guard(rule_i, ctx, ix)
@@ -449,12 +449,21 @@ def rule_e(ctx, ix, reg, classes):
 
 
 # ---------------------------------------------------------------------------------------
-def rule_f(ctx, ix):
+def rule_f(ctx, ix, newest_of=None):
+    """``newest_of``: a Registry - loaders of superseded protocol versions are left to C12 (a save never writes them)."""
     R = 'C02.f'
     ctx.describe(R, 'generator loaders resolve back-references after the yield; the unserialiser registers the '
-                    'yielded object before resuming', floor=9)
+                    'yielded object before resuming', floor=7 if newest_of is not None else 9)
+    old = set()
+    if newest_of is not None:
+        for t, vs in newest_of.loaders.items():
+            for v, fn in vs.items():
+                if v < max(vs):
+                    old.add(id(fn.raw_node))
     for q, key in BACKREFS:
         f = ix.func(q)
+        if id(f.raw_node) in old:
+            continue
         body = body_stmts(f.node)
         yi = None
         for i, st in enumerate(body):
